@@ -306,7 +306,7 @@ def step (s : Sess) (c : Cmd) : Sess × String × String :=
       let q : Stat × List Nat := if q.1 == .ok && refused then (.errAlloc, a) else q
       fin (setMS s k r.2.1 q.2 r.2.2) (fmtStat q.1) (fmtStat r.1)
     | "sort_in_place" =>
-      fin1 (setMS s k (DList.sortInPlace (pickCmp c) l) (LSeq.stableSort (pickCmp c) a) m) "st=-"
+      fin1 (setMS s k (DList.sortInPlaceC (pickCmp c) l) (LSeq.stableSort (pickCmp c) a) m) "st=-"
     | "mk_sub" | "mk_copy_shallow" | "mk_copy_deep" | "mk_filter" =>
       if (getM s to).isSome || to == k then fin1 s "st=- busy" else
       let r := if c.op == "mk_sub" then DList.sublist l (c.nat "b" 0) (c.nat "e" 0) m
